@@ -96,6 +96,10 @@ def gen_scenario(rng, n_min, n_max, parallel, with_127):
              'excl': (not parallel) or False, 'warmup': rng.choice([None, None, 1])}
         if parallel and rng.random() < 0.15 and n > 3:
             r['excl'] = True
+        if parallel and rng.random() < 0.3:
+            # a configured interference factor (also larger than the number of cores): whatever degree of parallelism
+            # it leads to, every non-exclusive run is executed
+            r['pif'] = rng.choice([1.0, 2.5, 4.0, 10.5, 40.0])
         s = []
         kind = rng.choice(['ok', 'ok', 'flaky', 'flaky', 'fails', 'late', 'alternating'])
         if kind == 'alternating':
@@ -276,6 +280,40 @@ def resumed_scenario(ck, tag, fixed=None):
             compare_with_batch(ck, inp, ref, obs, sched, 0)
 
 
+def check_lines_resolve(ck, inp, scn, obs, what):
+    """every data file stands on its own: the run number at the end of a line resolves, through the `# run_id:` /
+    `# benchmark:` records of THAT file, to the run the line names; shared runs have the same lines in both files"""
+    files = obs.get('raw_files')
+    if not files:
+        return True
+    per_file_rows = {}
+    for name, d in files.items():
+        bench = dict(d['bench_meta'])
+        run_to_bench = {}
+        for rid, meta in d['run_meta']:
+            run_to_bench[rid] = (bench.get(meta.get('benchmark_id')) or {}).get('name')
+        for cols in d['rows']:
+            try:
+                rid = int(cols[-1])
+            except ValueError:
+                rid = None
+            if run_to_bench.get(rid) != cols[5]:
+                ck.oracle_fail('line_resolves_to_its_run_in_its_file', inp,
+                               {'scheduler': what, 'file': name, 'line': cols, 'run_number_resolves_to': run_to_bench.get(rid),
+                                'records_of_the_file': sorted(run_to_bench.items())},
+                               signature={'files': 2})
+                return False
+            per_file_rows.setdefault(name, {}).setdefault(cols[5], []).append(cols[:5])
+    for i in scn.get('second_file_runs') or []:
+        a = sorted(per_file_rows.get('t.data', {}).get('B%d' % i, []))
+        b = sorted(per_file_rows.get('t2.data', {}).get('B%d' % i, []))
+        if a != b:
+            ck.oracle_fail('shared_run_recorded_in_both_files', inp, {'scheduler': what, 'run': i, 't.data': a, 't2.data': b},
+                           signature={'files': 2})
+            return False
+    return True
+
+
 def has_127(scripts):
     return any(o.get('rc') == 127 for s in scripts for o in s)
 
@@ -434,6 +472,7 @@ def sequential_scenario(ck, scn, scripts, seeds, tag):
         c04.queue_of(ck).add(op, lambda ans, inp=inp, obs=obs: c04.compare_session(ck, 'c11.session', inp, obs, ans, THEOREMS))
         if any(r.get('custom') for r in scn['runs']):
             check_own_adapter(ck, inp, scn, obs, sched)
+        check_lines_resolve(ck, inp, scn, obs, sched)
         if ref is None:
             ref = obs
             bad = contiguous(obs['file']['rows'])
@@ -632,6 +671,12 @@ def run(ck):
     # (1) sequential schedulers
     for i in range(36 if quick else 110):
         scn, scripts = gen_scenario(rng, 2, 5, False, with_127=(i % 9 == 8))
+        if i % 3 == 2 or i % 5 == 0:
+            # two experiments with their own data files and partly shared runs (experiment `all`)
+            n_runs = len(scn['runs'])
+            k = rng.randint(1, n_runs)
+            scn['second_file_runs'] = sorted(rng.sample(range(n_runs), k), reverse=rng.random() < 0.5)
+            ck.count('two-data-files')
         if i % 3 == 1:
             add_builds(rng, scn)
             ck.count('scenario-with-builds')
